@@ -587,7 +587,6 @@ static void u_set_main_sched_then_free(void **h)
     long live = UP.creates - UP.frees;
     ABT_OK(ABT_xstream_free(&jfree_xs));
     jfree_xs = ABT_XSTREAM_NULL;
-    addsched_npending = 0;
     SIM_CHECK(UP.creates - UP.frees == live - 1, "upool:unit-leaked",
               "freeing a joined stream whose main scheduler's ULT is a unit of the user-defined pool left %ld live units there (%ld before the free): free_unit was not called for it",
               UP.creates - UP.frees, live);
